@@ -134,6 +134,29 @@ func NewGen(w *World, seed uint64, profile string) *Gen {
 		}
 		g.setup = append(g.setup, Op{K: "payaddr", Creator: 11, Did: 11 + 1}) // the adversary's own DID
 	}
+	if profile == "pending" {
+		// owners that are sid identities with a bound account: they can submit their own signed proposal
+		// (the order stays pending until the gateway it names declares itself ready)
+		g.Malformed = 8
+		g.SimPct = 5
+		g.Nodes = []int{1, 2, 3, 4}
+		g.setup = nil
+		for _, i := range g.Nodes {
+			g.setup = append(g.setup, Op{K: "create", Creator: i})
+		}
+		for k, i := range g.Nodes {
+			op := Op{K: "reset", Creator: i, Status: 15, PeerOk: &t}
+			if k == 0 {
+				op.TxAddrs = []int{7 + 1}
+			}
+			g.setup = append(g.setup, op)
+			g.setup = append(g.setup, Op{K: "addv", Creator: i, Size: uint64(5_000_000 * (1 + g.R.Intn(4)))})
+		}
+		g.setup = append(g.setup, Op{K: "binding", Creator: 8, Acct: 8 + 1, Sid: 1})
+		g.setup = append(g.setup, Op{K: "binding", Creator: 9, Acct: 9 + 1, Sid: 2})
+		g.setup = append(g.setup, Op{K: "payaddr", Creator: 10, Did: 10 + 1})
+		g.setup = append(g.setup, Op{K: "payaddr", Creator: 11, Did: 11 + 1})
+	}
 	if profile == "lifecycle" {
 		g.Malformed = 5
 		// one provider that cannot afford collateral top-ups: it locks nearly all its coins in a delegation
@@ -217,13 +240,16 @@ func (g *Gen) advance() Op {
 	if g.Profile == "timeouts" {
 		jump = 92
 	}
+	if g.Profile == "pending" {
+		jump = 70
+	}
 	switch {
 	case ns != 0 && ns < 1<<40 && g.R.Chance(jump):
 		to = ns - int64(g.R.Intn(2))
 		if to <= h {
 			to = ns
 		}
-	case g.R.Chance(10) && g.Profile != "lifecycle" && g.Profile != "timeouts":
+	case g.R.Chance(10) && g.Profile != "lifecycle" && g.Profile != "timeouts" && g.Profile != "pending":
 		to = h + 1000 + int64(g.R.Intn(3000))
 	default:
 		to = h + 1 + int64(g.R.Intn(40))
@@ -244,6 +270,18 @@ func (g *Gen) advance() Op {
 
 // Next returns the next op; ok=false when the generator wants the block to end first is handled internally.
 func (g *Gen) Next() Op {
+	op := g.next()
+	// the creation timestamp of a sid identity is fixed in the op, so that a replay rebuilds the same identity
+	if op.Sid != 0 && op.SidTs == 0 {
+		op.SidTs = g.W.SidTimestamp(op.Sid)
+	}
+	if op.Inner != nil && op.Inner.Sid != 0 && op.Inner.SidTs == 0 {
+		op.Inner.SidTs = g.W.SidTimestamp(op.Inner.Sid)
+	}
+	return op
+}
+
+func (g *Gen) next() Op {
 	if len(g.setup) > 0 {
 		op := g.setup[0]
 		g.setup = g.setup[1:]
@@ -537,6 +575,9 @@ func (g *Gen) tx() Op {
 	}
 	if g.Profile == "timeouts" {
 		return g.timeoutTx()
+	}
+	if g.Profile == "pending" {
+		return g.pendingTx()
 	}
 	if g.Profile == "genesis" {
 		// a mix that populates every store: lifecycle, staking/super nodes (cursor), faults, dids
@@ -995,6 +1036,156 @@ func (g *Gen) timeoutTx() Op {
 	default:
 		return g.smallTx(li)
 	}
+}
+
+// sidOf returns the sid identity index (1-based) whose DID is `did`, or 0.
+func (g *Gen) sidOf(did string) int {
+	for k := 1; k <= 3; k++ {
+		if g.W.SidDid(k, 1) == did {
+			return k
+		}
+	}
+	return 0
+}
+
+// pendingTx: owners are sid identities that submit their own signed proposals (pending orders), gateways
+// (or their hot keys, or strangers) declare them ready — sometimes only after the timeout has passed —,
+// providers answer or stay silent, creators / gateways / strangers cancel, identities rotate their keys and
+// keep signing with the new, the rotated-out or a never-registered key.
+func (g *Gen) pendingTx() Op {
+	li := g.live()
+	r := g.R
+	gw := g.Nodes[r.Intn(len(g.Nodes))]
+	sid := 1 + r.Intn(2)
+	bound := 7 + sid // account index 8 is bound to identity 1, 9 to identity 2
+	var pend, open []ordertypes.Order
+	for _, o := range li.orders {
+		if o.Status == ordertypes.OrderPending {
+			pend = append(pend, o)
+		}
+		if o.Status != ordertypes.OrderCompleted {
+			open = append(open, o)
+		}
+	}
+	keyVer := func() int {
+		switch r.Intn(10) {
+		case 0:
+			return 1 // the first key (rotated out once the identity has been updated)
+		case 1:
+			return 2 + r.Intn(5) // some other version: rotated out, current or never registered
+		}
+		return 0 // the latest committed version
+	}
+	c := r.Intn(100)
+	switch {
+	case c < 20 || (len(li.orders) == 0 && c < 60):
+		d := g.newDataId()
+		g.Datas = append(g.Datas, d)
+		op := Op{K: "store", Creator: bound, Provider: gw + 1, Sid: sid, KeyVer: keyVer(), Duration: g.durations(), Replica: int32(1 + r.Intn(2)),
+			Timeout: int32(5 + r.Intn(40)), Alias: fmt.Sprintf("alias%d", g.dataSeq), DataId: d, CommitId: d, Size: uint64(1 + r.Intn(500_000)), Operation: 1}
+		if r.Chance(10) {
+			op.Creator = []int{9, 8}[sid-1] // an account bound to the *other* identity
+		}
+		return op
+	case c < 42 && len(pend) > 0:
+		o := pend[r.Intn(len(pend))]
+		p := g.acctIndex(o.Provider)
+		op := Op{K: "ready", Creator: p, Provider: p + 1, OrderId: o.Id}
+		switch r.Intn(9) {
+		case 0:
+			op.Creator = 11
+		case 1:
+			other := g.Nodes[r.Intn(len(g.Nodes))]
+			op.Creator, op.Provider = other, other+1
+		case 2, 3:
+			op.Creator = 7 // hot key of node 1: entitled only when node 1 is the order's gateway
+		case 4:
+			op.Creator = g.acctIndex(o.Creator) // the owner's own account
+		}
+		return op
+	case c < 52:
+		d := g.newDataId()
+		g.Datas = append(g.Datas, d)
+		return Op{K: "store", Creator: gw, Provider: gw + 1, Sid: sid, KeyVer: keyVer(), Duration: g.durations(), Replica: int32(1 + r.Intn(2)),
+			Timeout: int32(5 + r.Intn(40)), Alias: fmt.Sprintf("alias%d", g.dataSeq), DataId: d, CommitId: d, Size: uint64(1 + r.Intn(500_000)), Operation: 1}
+	case c < 70:
+		for _, s := range li.shards {
+			if s.Status == ordertypes.ShardWaiting && r.Chance(60) {
+				sp := g.acctIndex(s.Sp)
+				if (sp+int(g.seed0))%3 == 0 {
+					continue // this provider stays silent in this history
+				}
+				return Op{K: "complete", Creator: sp, Provider: sp + 1, OrderId: s.OrderId, Size: s.Size_}
+			}
+		}
+		return Op{K: "claim", Creator: gw}
+	case c < 80 && len(open) > 0:
+		o := open[r.Intn(len(open))]
+		cr := g.acctIndex(o.Creator)
+		op := Op{K: "cancel", Creator: cr, Provider: cr + 1, OrderId: o.Id}
+		switch r.Intn(6) {
+		case 0:
+			p := g.acctIndex(o.Provider)
+			op.Creator, op.Provider = p, p+1
+		case 1:
+			op.Creator, op.Provider = 11, g.acctIndex(o.Provider)+1
+		case 2:
+			op.Creator, op.Provider = 7, g.acctIndex(o.Provider)+1
+		}
+		return op
+	case c < 86:
+		// key rotation needs a binding to drop: account 5 (identity 1) / 6 (identity 2) is bound and dropped in turn
+		extra := 4 + sid
+		isBound := false
+		if al, found := g.W.C.App.DidKeeper.GetAccountList(g.W.C.Ctx(), g.W.SidDid(sid, 1)); found {
+			for _, ad := range al.AccountDids {
+				var a int
+				if _, err := fmt.Sscanf(ad, "did:key:acct%d-of-", &a); err == nil && a == extra+1 {
+					isBound = true
+				}
+			}
+		}
+		if !isBound {
+			return Op{K: "binding", Creator: bound, Acct: extra + 1, Sid: sid}
+		}
+		return Op{K: "didupdate", Creator: bound, Sid: sid, KeyVer: 2 + r.Intn(5), Remove: []int{extra + 1}, Update: []int{bound + 1}, PastSeed: fmt.Sprintf("seed%d-%d", r.Intn(1000), g.dataSeq)}
+	case c < 94 && len(li.metas) > 0:
+		m := li.metas[r.Intn(len(li.metas))]
+		ms := g.sidOf(m.Owner)
+		if ms == 0 {
+			break
+		}
+		forge := 0
+		if r.Chance(25) {
+			// the other identity signs with its own key and names its own document, but claims this owner's DID
+			forge = 3 - ms
+		}
+		if forge != 0 {
+			switch r.Intn(3) {
+			case 0:
+				return Op{K: "terminate", Creator: gw, Provider: gw + 1, Sid: ms, DocSid: forge, DataId: m.DataId}
+			case 1:
+				return Op{K: "perm", Creator: gw, Provider: gw + 1, Sid: ms, DocSid: forge, DataId: m.DataId, RwDids: []int{10 + 1}}
+			default:
+				nc := g.newDataId()
+				return Op{K: "store", Creator: gw, Provider: gw + 1, Sid: ms, DocSid: forge, Duration: 3600, Replica: 1, Timeout: 30,
+					Alias: m.Alias, DataId: m.DataId, CommitId: m.Commit + "|" + nc, Size: 1000, Operation: uint32(1 + r.Intn(2))}
+			}
+		}
+		switch r.Intn(4) {
+		case 0:
+			return Op{K: "terminate", Creator: gw, Provider: gw + 1, Sid: ms, KeyVer: keyVer(), DataId: m.DataId}
+		case 1:
+			return Op{K: "renew", Creator: gw, Provider: gw + 1, Sid: ms, KeyVer: keyVer(), Duration: g.durations(), Timeout: 50, Data: []string{m.DataId}}
+		case 2:
+			return Op{K: "perm", Creator: gw, Provider: gw + 1, Sid: ms, KeyVer: keyVer(), DataId: m.DataId, RwDids: []int{10 + 1}}
+		default:
+			nc := g.newDataId()
+			return Op{K: "store", Creator: []int{gw, 7 + ms}[r.Intn(2)], Provider: gw + 1, Sid: ms, KeyVer: keyVer(), Duration: g.durations(), Replica: 1, Timeout: int32(5 + r.Intn(40)),
+				Alias: m.Alias, DataId: m.DataId, CommitId: m.Commit + "|" + nc, Size: uint64(1 + r.Intn(100000)), Operation: uint32(1 + r.Intn(2))}
+		}
+	}
+	return g.smallTx(li)
 }
 
 func (g *Gen) authTx() Op {
